@@ -10,6 +10,8 @@ package apph
 //   validator-stake-ne-locked-total         committed: v_.staking - (slash postponed to next block) != st__t_<v>
 //   slash-not-applied-to-validator-record   BeginBlock dropped the postponed unstake of a slashed validator
 //   operation-on-frozen-validator-succeeded STAKE/UNSTAKE/WITHDRAW naming a frozen validator returned code 0
+//   withdraw-by-stake-account-of-frozen-validator-succeeded   WITHDRAW by the stake address of a frozen validator's record, whatever validator it names
+//   slash-charged-previous-stake-address    a verdict in the block in which the stake address changed did not charge the current stake address
 //   unstake-with-pending-allegation-succeeded   (a request that was already committed: the guard iterates the
 //                                           committed tree, a request created earlier in the same block is invisible to it)
 //   bounded-credit-not-from-matured-unstake withdrawable amount grew at EndBlock h by more than the
@@ -233,12 +235,13 @@ func (e *stakeExec) monitorTx(c stakeCmd, h int64, v, d int, tr TxResult, fee *b
 		// not part of the property as stated; the guard cannot see a request of the same block
 		e.Res.Counters["unstake_ok_while_allegation_of_same_block_pending"]++
 	}
-	// informational: the guard is by named validator only (the withdrawable amount is per delegator)
+	// the withdrawable amount is kept per stake address: the stake account of a frozen validator
+	// must not withdraw whatever validator the message names (df2e1ab)
 	if c.Kind == "withdraw" {
 		for vv, rec := range pre.Vals {
 			if rec.SA == d && pre.Frozen[vv] {
-				e.Res.Counters["withdraw_ok_naming_other_validator_while_own_validator_frozen"]++
-				break
+				e.hit("withdraw-by-stake-account-of-frozen-validator-succeeded", fmt.Sprintf("%s: delegator %d is the stake address of validator %d, which is frozen (record enumerated by the store iteration: %v)", where, d, vv, pre.IterVals[vv]))
+				return
 			}
 		}
 	}
@@ -346,6 +349,18 @@ func (e *stakeExec) monitorEnd(h int64, pre, post *sview, guilty []int) {
 		if post.Vals[v] == nil && bz(pre.Tot, v).Sign() != 0 {
 			e.hit("validator-record-missing-with-locked-stake", fmt.Sprintf("%s deleted the record of validator %d while its delegators' locked total is %s", where, v, bz(pre.Tot, v)))
 			return
+		}
+	}
+	// root cause first: a verdict charges the stake address of the record of the previous block
+	for _, g := range guilty {
+		was, now := e.prev.Vals[g], pre.Vals[g]
+		dTot := new(big.Int).Sub(bz(pre.Tot, g), bz(post.Tot, g))
+		if was != nil && now != nil && was.SA != now.SA && dTot.Sign() > 0 {
+			dVD := new(big.Int).Sub(bzv(pre.VD, g, now.SA), bzv(post.VD, g, now.SA))
+			if dVD.Cmp(dTot) != 0 {
+				e.hit("slash-charged-previous-stake-address", fmt.Sprintf("%s: validator %d was found guilty in the block in which its stake address changed from %d to %d; locked total %s -> %s, delegation of %d: %s -> %s", where, g, was.SA, now.SA, bz(pre.Tot, g), bz(post.Tot, g), now.SA, bzv(pre.VD, g, now.SA), bzv(post.VD, g, now.SA)))
+				return
+			}
 		}
 	}
 	// 1. unlocks: exactly the unstakes that reach maturity now
